@@ -301,12 +301,27 @@ def run(ctx: Ctx, rs: RuleSet, tier: str):
   # materialize_tags
   f = ctx.func(f'{S}.tagging.materialize_tags.transform')
   ok = False
+  vp = f.params[0]
+  payload = f'{vp}.value'
   for n in walk_function(f.node):
     if isinstance(n, ast.If) and 'TaggedValueCls' in unparse(n.test):
-      t = unparse(n.test)
-      ok = 'value.value != NO_VALUE' in t and any(
-          isinstance(s, ast.Return) and unparse(s.value) == 'value.value'
+      has_value = any(
+          isinstance(c, ast.Compare) and len(c.ops) == 1 and isinstance(
+              c.ops[0], (ast.NotEq, ast.IsNot)) and
+          {unparse(c.left), unparse(c.comparators[0])} == {payload, 'NO_VALUE'}
+          for c in ast.walk(n.test))
+      # the test is a conjunction: the payload check cannot be or-ed away
+      conj = not any(isinstance(b, ast.BoolOp) and isinstance(b.op, ast.Or) and
+                     any(payload in unparse(v) and 'NO_VALUE' in unparse(v)
+                         for v in b.values) for b in ast.walk(n.test))
+      local_payload = {t.id for s in n.body if isinstance(s, ast.Assign) and
+                       unparse(s.value) == payload for t in s.targets
+                       if isinstance(t, ast.Name)}
+      returns_payload = any(
+          isinstance(s, ast.Return) and s.value is not None and (
+              unparse(s.value) == payload or unparse(s.value) in local_payload)
           for s in n.body)
+      ok = has_value and conj and returns_payload
   rs.check(ok, rule, f.qualname,
            'a TaggedValue is unwrapped only when it holds a value',
            ctx.loc(f, f.node))
@@ -343,6 +358,66 @@ def run(ctx: Ctx, rs: RuleSet, tier: str):
   rs.check(ok, rule, f.qualname,
            'the internals of as_buildable(...) are moved into the original '
            'object', ctx.loc(f, f.node))
+
+  # ---- parts of a node are handed on only after the node was rebuilt
+  rule = 'DOM.extract-after-rebuild'
+  rs.declare(rule, 'a rebuilding callback returns a part of the visited node '
+             '(value.x / value[k]) only after value = state.map_children('
+             'value): the part is the traversal\'s memoized copy, not the '
+             'caller\'s object', 1)
+  callbacks = [
+      f'{S}.tagging.materialize_tags.transform',
+      f'{S}.experimental.transform.unintern_tuples_of_literals.transform',
+      f'{S}.experimental.transform.replace_unconfigured_partials_with_callables.transform',
+      f'{S}.experimental.serialization.clear_argument_history.traverse',
+      f'{S}.experimental.visualize.with_defaults_trimmed.traverse_fn',
+      f'{S}.experimental.dataclasses.convert_dataclasses_to_configs.traverse',
+  ]
+  n_sites = 0
+  for q in callbacks:
+    f = ctx.func(q)
+    g = ctx.cfg(f)
+    node_p = f.params[0]
+    rebinds = {m for m in g.nodes() if g.kind[m] == 'stmt' and isinstance(
+        g.stmt[m], ast.Assign) and any(
+            unparse(t) == node_p for t in g.stmt[m].targets) and (
+                'map_children' in unparse(g.stmt[m].value))}
+    def is_part(e):
+      return (isinstance(e, (ast.Attribute, ast.Subscript)) and
+              unparse(e.value) == node_p and not (
+                  isinstance(e, ast.Attribute) and e.attr.startswith('__')))
+
+    returned_names = {g.stmt[n].value.id for n in g.nodes() if isinstance(
+        g.stmt[n], ast.Return) and isinstance(g.stmt[n].value, ast.Name)}
+    for n in g.nodes():
+      st = g.stmt[n]
+      if g.kind[n] != 'stmt':
+        continue
+      # the node where the part is read: `return value.x`, or `p = value.x`
+      # for a local that is returned
+      if isinstance(st, ast.Return) and st.value is not None and is_part(
+          st.value):
+        read = st.value
+      elif isinstance(st, ast.Assign) and is_part(st.value) and any(
+          isinstance(t, ast.Name) and t.id in returned_names
+          for t in st.targets):
+        read = st.value
+      else:
+        continue
+      n_sites += 1
+      ok = bool(rebinds) and g.dominated_by(n, rebinds, labels=cfg_lib.NO_EXC)
+      rs.check(ok, rule, f'{q}:`{unparse(read)[:50]}`',
+               f'`{unparse(read)}` is read from the rebuilt node' if ok
+               else f'`{unparse(st)}` hands back a part of the caller\'s own '
+               f'node (`{node_p}` has not been rebuilt by map_children on '
+               'this path): where that part is also reachable through another '
+               'path the result holds the original object in one place and '
+               'the traversal\'s copy in the other - sharing differs from the '
+               'input, the build creates two objects instead of one, and the '
+               'result aliases the input', ctx.loc(f, st))
+  if n_sites == 0:
+    raise AnalysisError('no part-returning callback found (materialize_tags '
+                        'unwraps TaggedValue payloads)')
 
   # ---- OWN
   ownrule.run_entry_points(
